@@ -1247,9 +1247,18 @@ func (g *Gen) execSlice(x *ssa.Slice, st *State) {
 		cur := g.loadAddr(base, st)
 		id := g.newObj(st)
 		es := g.sortOf(at.Elem())
-		name, sort := g.elemMapName(es)
-		h := g.heapGet(st, name, sort)
-		st.heap[name] = g.defineRaw("h", sort, fmt.Sprintf("(store %s %s %s)", h, id, cur.T))
+		if _, isStruct := at.Elem().Underlying().(*types.Struct); isStruct && !isTimeType(at.Elem()) && !isOpaqueStruct(at.Elem()) && cur.S != nil && cur.S.K == KArray && at.Len() <= 16 {
+			// elements of struct type live in the field maps at (pelem id k): copy them there
+			for k := int64(0); k < at.Len(); k++ {
+				ev := Val{T: fmt.Sprintf("(select %s %s)", cur.T, g.idxLit(k)), S: es, G: at.Elem()}
+				p := Val{T: fmt.Sprintf("(pelem %s %s)", id, g.idxLit(k)), S: sPtr}
+				g.storePtr(p, at.Elem(), nil, ev, st)
+			}
+		} else {
+			name, sort := g.elemMapName(es)
+			h := g.heapGet(st, name, sort)
+			st.heap[name] = g.defineRaw("h", sort, fmt.Sprintf("(store %s %s %s)", h, id, cur.T))
+		}
 		g.note(fmt.Sprintf("array %s sliced in %s: modelled as a copy into a fresh backing array (later writes through the array name are not reflected)", base.text, g.key))
 		r := fmt.Sprintf("(mk-slice %s %s %s %s)", id, lo, g.idxSub(hi, lo), g.idxSub(n, lo))
 		g.setVal(x, Val{T: r, S: sSlice, G: x.Type()})
